@@ -208,6 +208,22 @@ impl<P: PlanePersistence> Session<P> {
                 drop(fut);
                 OpResult::Abandoned { was_pending }
             }
+            Op::AbandonAfterRelease { agent } => {
+                if let Err(r) = self.ensure_node(agent) {
+                    return r;
+                }
+                let mut fut = self.plane.node_store(agent);
+                let was_pending = match poll_once(&mut fut) {
+                    Poll::Pending => true,
+                    Poll::Ready(Ok(_n)) => false,
+                    Poll::Ready(Err(e)) => return err("node_store", e),
+                };
+                // The holder goes away: its state travels to the waiting request ...
+                drop(self.nodes.remove(agent));
+                // ... which is given up without another poll.
+                drop(fut);
+                OpResult::Abandoned { was_pending }
+            }
             Op::ContendRequests { agent } => {
                 if let Err(r) = self.ensure_node(agent) {
                     return r;
